@@ -226,6 +226,10 @@ def run_property(mod, tier, replay=None):
     with open(os.path.join(EVID, pid + ".json"), "w") as f:
         json.dump(ev, f, indent=1, default=str)
     print("%s %s: %d cases, %d distinct non-trivial, %d known-finding hits, %d violations, %.1fs" % (pid, tier, evals, len(nontriv), sum(known_hits.values()), len(vio_paths), wall))
+    missing = [c for c in getattr(mod, "REQUIRED_CLASSES", []) if not classes.get(c)]
+    if rc == 0 and missing:
+        sys.stderr.write("HARNESS ERROR: %s generated no case of class(es) %s - the generator no longer reaches what the check is for\n" % (pid, missing))
+        return 2
     if rc == 0 and (evals < 1 or len(nontriv) < 2):
         sys.stderr.write("HARNESS ERROR: %s explored too little (evals=%d nontrivial=%d)\n" % (pid, evals, len(nontriv)))
         return 2
